@@ -190,8 +190,6 @@ impl IpaPC {
 //@end
 }
 // k = ceil(log2 n): the least k with n <= 2^k
-pub open spec fn is_ceil_log2(n: nat, k: nat) -> bool { n <= p2(k) && (n > 1 ==> p2((k - 1) as nat) < n) && (n <= 1 ==> k == 0) }
-pub open spec fn ipa_final_key(vk: &VerifierKey, u: Seq<FS>) -> FS { msm(vk.comm_key@, scp_coeffs(u), min(vk.comm_key@.len(), scp_coeffs(u).len())) }
 pub proof fn lemma_log_unique(n: nat, r: nat, k: nat)
     requires is_ceil_log2(n, r), is_ceil_log2(n, k)
     ensures r == k
